@@ -20,7 +20,7 @@ BI_BOUNDARY = [0, 1, -1, 2, 10, 2**29 - 1, 2**29, 2**30, 2**31 - 1, 2**31, 2**32
                2**64, 2**64 + 1, 10**20, -10**20, 3**50, -(2**63), -(2**62), 2**100, 10**40 + 7]
 
 ALL_FEATURES = ["bi", "str", "fun", "while", "for", "exit", "list", "arr", "rec", "un", "clos", "gen", "ovl", "brk", "rec_fun",
-                "try"]
+                "try", "halt"]
 
 
 def lit(t, n):
@@ -213,7 +213,7 @@ class ProgGen(object):
                         choices.append(("aref", x))
                     if vt[0] == "list" and vt[1] == t and not nocond:
                         choices.append(("first", x))
-                    if vt[0] == "un" and t in self.uns[vt[1]] and not nocond and not (self.top_if and not self.in_fun):
+                    if vt[0] == "un" and t in self.uns[vt[1]] and self.in_fun:
                         choices.append(("uget", x))
             if t == SI:
                 for x, (vt, _) in all_vars.items():
@@ -223,7 +223,7 @@ class ProgGen(object):
                 for x, (vt, _) in all_vars.items():
                     if isinstance(vt, list) and vt[0] == "list":
                         choices.append(("empty", x))
-                    if isinstance(vt, list) and vt[0] == "un" and not (self.top_if and not self.in_fun):
+                    if isinstance(vt, list) and vt[0] == "un" and self.in_fun:   # `case` at file level: known finding
                         choices.append(("uis", x))
         else:
             choices += ["default"] * 2
@@ -364,6 +364,8 @@ class ProgGen(object):
             choices += ["ret"]
         if self.in_gen is not None:
             choices += ["yield"] * 3
+        if "halt" in self.feat and not self.pure_mode and self.in_fun and not self.in_gen and d > 0 and r.random() < 0.3:
+            choices += ["halt"]
         for x, (vt, a) in allv.items():
             if isinstance(vt, list) and not self.pure_mode:
                 if vt[0] == "arr" and x in self.arrlen:
@@ -459,6 +461,9 @@ class ProgGen(object):
             return {"e": "if", "c": self.expr(BOOL, scope, d), "a": {"e": r.choice(["break", "iterate"])}, "b": {"e": "unit"}, "t": UNIT}
         if c == "ret":
             return {"e": "if", "c": self.expr(BOOL, scope, d - 1), "a": {"e": "ret", "v": self.rhs(self.ret_t, scope, d - 1)},
+                    "b": {"e": "unit"}, "t": UNIT}
+        if c == "halt":
+            return {"e": "if", "c": self.expr(BOOL, scope, d - 1), "a": {"e": "error", "msg": "halt%d" % r.randint(0, 99)},
                     "b": {"e": "unit"}, "t": UNIT}
         if c == "yield":
             return {"e": "yield", "v": self.rhs(self.in_gen, scope, d)}
